@@ -204,6 +204,11 @@ package discovery
 //@        isNilIface(ret(call .verifier #1)) && same(arg(call .verifier #1, 0), service) && same(arg(call .verifier #1, 1), arg(call (*sqlStore).add #1, 2))
 //@        && isNilIface(ret(call (*sqlStore).add #1).1) && len(arg(1)) == 1 && same(arg(1)[0], *ret(call (*sqlStore).add #1).0)
 //@   loop 1 invariant u.verifier != nil
+// The first stored entry moves the client's timestamp past the whole response: once a response is
+// accepted (fetched, seed check done, not wiped) every entry of it is handled, whatever happens to one of them.
+//@   ensures [every-entry-of-an-accepted-response-is-handled] isNilIface(ret(call (client.HTTPClient).Get #1).3)
+//@        && isNilIface(ret(call (*sqlStore).wipeOnSeedChange #1)) && did(call (*sqlStore).getTimestamp #2) && isNilIface(ret(call (*sqlStore).getTimestamp #2).1)
+//@        && ret(call (*sqlStore).getTimestamp #2).0 >= ret(call (*sqlStore).getTimestamp #1).0 ==> $done1
 
 // ---- C16: what the server hands out and what a search returns ----
 
